@@ -2,6 +2,7 @@
 (field.rs, dynamic.rs, block.rs, stream.rs)."""
 import re
 from rustsrc import Source, AnchorLost, parse_int
+import qpack_bodies
 
 NAME = 'GenQpack'
 
@@ -43,12 +44,13 @@ def extract(repo):
     f['can_free_toolarge_cmp'] = CMP[m.group(1)]
     m = need(re.search(r'if\s+self\.max_size\s*-\s*self\.curr_size\s*(>=|>|<=|<)\s*required\s*\{', body), 'can_free room cmp')
     f['can_free_room_cmp'] = CMP[m.group(1)]
-    m = need(re.search(r'if\s+hypothetic_mem_size\s*(>=|>|<=|<)\s*lower_bound\s*\{', body), 'can_free loop cmp')
+    mv = need(re.search(r'let\s+mut\s+(\w+)\s*=\s*self\.curr_size\s*;', body), 'can_free running size')
+    hv = re.escape(mv.group(1))       # the local holding the hypothetical size, whatever it is called
+    m = need(re.search(r'if\s+' + hv + r'\s*(>=|>|<=|<)\s*lower_bound\s*\{', body), 'can_free loop cmp')
     f['can_free_loop_cmp'] = CMP[m.group(1)]
     need(re.search(r'let\s+lower_bound\s*=\s*self\.max_size\s*-\s*required\s*;', body), 'can_free lower_bound statement')
-    need(re.search(r'let\s+mut\s+hypothetic_mem_size\s*=\s*self\.curr_size\s*;', body), 'can_free hypothetic_mem_size init')
-    need(re.search(r'evictable\s*\+=\s*1\s*;\s*hypothetic_mem_size\s*-=\s*to_evict\.mem_size\(\)\s*;', body), 'can_free loop body')
-    m = need(re.search(r'if\s+required\s*(>=|>|<=|<)\s*self\.max_size\s*-\s*hypothetic_mem_size\s*\{', body), 'can_free final cmp')
+    need(re.search(r'\w+\s*\+=\s*1\s*;\s*' + hv + r'\s*-=\s*\w+\.mem_size\(\)\s*;', body), 'can_free loop body')
+    m = need(re.search(r'if\s+required\s*(>=|>|<=|<)\s*self\.max_size\s*-\s*' + hv + r'\s*\{', body), 'can_free final cmp')
     f['can_free_final_cmp'] = CMP[m.group(1)]
     # register_blocked
     body, spans['register_blocked'] = dyn.fn_body('register_blocked')
@@ -70,6 +72,23 @@ def extract(repo):
     blk2, spans['InsertCountIncrement'], _ = st.item_block(r'impl\s+InsertCountIncrement\b')
     m = need(re.search(r'if\s+x\s*>\s*(\d+)\s*\{', blk2), 'increment limit')
     f['increment_limit'] = int(m.group(1))
+    # everything else in these files must be exactly the recorded source (fact sites masked, locals name-agnostic)
+    OP = r'(>=|<=|==|!=|>|<)'
+    ID = r'(?:\u00a7\d+|[a-z_]+)'
+    qpack_bodies.check(repo, 'GenQpack.bodies.json', [
+        ('h3/src/qpack/field.rs', [r'ESTIMATED_OVERHEAD_BYTES:usize=([0-9_]+);']),
+        ('h3/src/qpack/vas.rs', []),
+        ('h3/src/qpack/dynamic.rs', [
+            r'SETTINGS_MAX_TABLE_CAPACITY_MAX:usize=([0-9_]+);', r'SETTINGS_MAX_BLOCKED_STREAMS_MAX:usize=([0-9_]+);',
+            r'if' + ID + OP + r'SETTINGS_MAX_BLOCKED_STREAMS_MAX\{', r'if' + ID + OP + r'SETTINGS_MAX_TABLE_CAPACITY_MAX\{',
+            r'ifself\.table\.blocked_count' + OP + r'self\.table\.blocked_max\{', r'if' + ID + OP + r'self\.max_size\{returnErr',
+            r'ifself\.max_size-self\.curr_size' + OP + ID + r'\{', r'if' + ID + OP + ID + r'\{break;\}',
+            r'if' + ID + OP + r'self\.max_size-' + ID + r'\{Ok\(Some', r'if' + ID + OP + r'self\.largest_known_received\{']),
+        ('h3/src/qpack/block.rs', [r'=' + ID + r'/(\d+);', ID + r'%\((\d+)\*' + ID + r'\)\+(\d+),']),
+        ('h3/src/qpack/stream.rs', [r'if' + ID + r'>(\d+)\{returnErr\(ParseError::Integer\(crate::qpack::prefix_int::Error::Overflow,\)\);\}' + ID + r'asu8']),
+        ('h3/src/qpack/encoder.rs', []),
+        ('h3/src/qpack/decoder.rs', []),
+    ])
     return f, spans
 
 
